@@ -14,9 +14,11 @@ ASSUMPTIONS = ['fragments mixing an upper-case call with a nested lower-case one
 # (cell value, expected reported fragments or None when innocent)
 SUSP = [('eval(1)', ['eval(1)']), ('os.system("x")', ['system("x")']), ('f()', ['f()']), ('a_b(1,2)', ['a_b(1,2)']),
         ('x9(y)', ['x9(y)']), ('eval(\n1)', ['eval(\n1)']), ('=eval(1)+1', ['eval(1)']),
-        ('see print(2) and exec("3")', ['print(2)', 'exec("3")']), ('=A1+len("ab")', ['len("ab")'])]
+        ('see print(2) and exec("3")', ['print(2)', 'exec("3")']), ('=A1+len("ab")', ['len("ab")']),
+        (('$array', '=eval(1)'), ['eval(1)']), (('$array', '=SUM(A1:A2)*len("ab")'), ['len("ab")']), ('sha1(A1)', ['sha1(A1)'])]
 INNO = [('SUM(1,2)', None), ('=SUM(A1:A2)', None), ('=IF(A1>1,"a",2)', None), ('a (1)', None), ('text', None), (12, None),
-        (True, None), ('SUM(1,\n2)', None), ('=ROUND(\nA1,1)', None), ('(1)', None), ('=A1*(B1+2)', None), (2.5, None)]
+        (True, None), ('SUM(1,\n2)', None), ('=ROUND(\nA1,1)', None), ('(1)', None), ('=A1*(B1+2)', None), (2.5, None),
+        (('$array', '=SUM(A1:A2*2)'), None)]
 FRAGS = SUSP + INNO
 SHEETS = ['S', 'My Sheet', 'Лист3']
 COLS = ['A', 'B', 'C', 'Y', 'Z', 'AA', 'AZ', 'BA']
@@ -105,6 +107,9 @@ def run_cases(cases, stats):
         expect = {}
         for fi, (s, col, row) in c['cells']:
             val, frag = FRAGS[fi]
+            if isinstance(val, tuple):
+                from openpyxl.worksheet.formula import ArrayFormula
+                val = ArrayFormula(f'{col}{row}:{col}{row}', val[1])
             sheets[s][1][f'{col}{row}'] = val
             if frag:
                 expect[f"'{SHEETS[s]}'{col}{row}"] = frag
